@@ -61,6 +61,14 @@ func newEnv(t *testing.T, dr drSpec, fl flavour) *envT {
 	if got := e.push.IsClusterLocal(svc); got != fl.ClusterLocal {
 		t.Fatalf("cluster-local = %v for flavour %s", got, fl.Name)
 	}
+	if svc.Attributes.NodeLocal != fl.NodeLocal {
+		t.Fatalf("node-local = %v for flavour %s", svc.Attributes.NodeLocal, fl.Name)
+	}
+	for i, p := range e.proxies {
+		if p.GetNodeName() != proxyForms[i].Node {
+			t.Fatalf("proxy %s: node name %q", p.ID, p.GetNodeName())
+		}
+	}
 	if !e.push.NetworkManager().IsMultiNetworkEnabled() {
 		t.Fatalf("gateways not loaded")
 	}
@@ -267,12 +275,16 @@ func historyHas(c caseT, alpha []epSpec, pred func(epSpec) bool) bool {
 // and the cluster-local service and all DestinationRule forms; the three non-default switch settings
 // are added for every history in which an UnHealthy endpoint is reported at some step, the two
 // persistent-session services for every history in which a draining endpoint (status or label) is
-// reported at some step. Thorough runs the whole product.
+// reported at some step, the node-local service for every history in which an endpoint on node-b or
+// an endpoint of registry B (cluster c2) is reported at some step. Thorough runs the whole product.
 func inQuick(c caseT, alpha []epSpec) bool {
 	if c.Ft != 0 && !historyHas(c, alpha, func(e epSpec) bool { return model.HealthStatus(e.Health) == model.UnHealthy }) {
 		return false
 	}
 	if flavours[c.Fl].Sticky && !historyHas(c, alpha, func(e epSpec) bool { return model.HealthStatus(e.Health) == model.Draining || e.DrainLabel }) {
+		return false
+	}
+	if flavours[c.Fl].NodeLocal && !historyHas(c, alpha, func(e epSpec) bool { return e.Node != nodeA || e.Shard != 0 }) {
 		return false
 	}
 	return true
@@ -493,7 +505,7 @@ func subsetsUpTo(n, k int) [][]int {
 func TestC13b(t *testing.T) {
 	env := engine.GetEnv()
 	res := engine.NewResult("C13", "b-membership")
-	res.Rule = "case = DestinationRule form {none, subsets, +outlierDetection, +localityLbSetting.failover r1->r2, +distribute from r1/z1/* to {r1/z1/*:70, r2/z1/*:30}, outlierDetection.minHealthPercent=50} x service {plain, persistent-session cookie label, persistent-session header label, cluster-local} x unhealthy-endpoint switches {PILOT_AUTO_SEND_UNHEALTHY_ENDPOINTS on/off x PILOT_SEND_UNHEALTHY_ENDPOINTS on/off} x history; histories: (I) every subset of size 1..3 (thorough 1..4) of the 20-endpoint alphabet (against a healthy v1 http r1/z1 registry-A network-n1 IP base: UnHealthy, Draining, Terminating, version v2, no version, other service port, locality r1/z2, r2/z1, none, weight 3, network with gateways, network without gateway, discoverable from same cluster only, hostname address, draining label; four registry-B endpoints) reported by registries A (cluster c1) and B (cluster c2), then the first element's registry re-reports the successors of its endpoints, reports the empty list, reports the original list again, and finally the other registry's cluster is removed (or, when it reported nothing, the service is deleted in the first registry); (II) every ordered pair (a,b) of alphabet elements: a's registry reports {a}, then the same address with b's attributes, with and without an unchanged companion endpoint; after every step and for each of 3 proxies (sidecar c1/n1/r1z1, sidecar c2/n2/r2z1, router c1/n1/r1z2) x 2 clusters (outbound|80||svc, outbound|80|v1|svc) the real EdsGenerator output is judged twice: as a proxy subscribing at that moment (request-driven generation through the shared XDS cache) and as a proxy that stayed subscribed and received what the update's push decision sends; one evaluation = one judged ClusterLoadAssignment; non-trivial = a case in which, for some view, the reference both requires and excludes reported endpoints"
+	res.Rule = "case = DestinationRule form {none, subsets, +outlierDetection, +localityLbSetting.failover r1->r2, +distribute from r1/z1/* to {r1/z1/*:70, r2/z1/*:30}, outlierDetection.minHealthPercent=50} x service {plain, persistent-session cookie label, persistent-session header label, cluster-local, node-local (internalTrafficPolicy Local)} x unhealthy-endpoint switches {PILOT_AUTO_SEND_UNHEALTHY_ENDPOINTS on/off x PILOT_SEND_UNHEALTHY_ENDPOINTS on/off} x history; histories: (I) every subset of size 1..3 (thorough 1..4) of the 21-endpoint alphabet (against a healthy v1 http r1/z1 registry-A network-n1 IP base: UnHealthy, Draining, Terminating, version v2, no version, other service port, locality r1/z2, r2/z1, none, weight 3, network with gateways, network without gateway, discoverable from same cluster only, hostname address, draining label, other node; four registry-B endpoints, node names node-a/node-b exist in both clusters) reported by registries A (cluster c1) and B (cluster c2), then the first element's registry re-reports the successors of its endpoints, reports the empty list, reports the original list again, and finally the other registry's cluster is removed (or, when it reported nothing, the service is deleted in the first registry); (II) every ordered pair (a,b) of alphabet elements: a's registry reports {a}, then the same address with b's attributes, with and without an unchanged companion endpoint; after every step and for each of 3 proxies (sidecar c1/n1/r1z1 on node-a, sidecar c2/n2/r2z1 on node-a, router c1/n1/r1z2 on node-b) x 2 clusters (outbound|80||svc, outbound|80|v1|svc) the real EdsGenerator output is judged twice: as a proxy subscribing at that moment (request-driven generation through the shared XDS cache) and as a proxy that stayed subscribed and received what the update's push decision sends; one evaluation = one judged ClusterLoadAssignment; non-trivial = a case in which, for some view, the reference both requires and excludes reported endpoints"
 	defer res.Write(t, env)
 	defer featForms[0].apply()
 
@@ -538,7 +550,7 @@ func TestC13b(t *testing.T) {
 	res.Bounds["cases_total"] = total
 
 	if !env.Thorough() {
-		res.Bounds["quick_restriction"] = "non-default unhealthy-endpoint switch settings only for histories that report an UnHealthy endpoint at some step; persistent-session services only for histories that report a draining endpoint at some step; everything else in full"
+		res.Bounds["quick_restriction"] = "non-default unhealthy-endpoint switch settings only for histories that report an UnHealthy endpoint at some step; persistent-session services only for histories that report a draining endpoint at some step; node-local service only for histories that report an endpoint on node-b or from registry B at some step; everything else in full"
 	}
 	var cases, inTier, seq int64
 	engine.Product([]int{len(drForms), len(flavours), len(featForms), len(sets) + len(pairs)}, func(ord int64, idx []int) bool {
